@@ -1048,6 +1048,12 @@ def _decorate_with_invariants(func: CallableT, is_init: bool) -> CallableT:
                 _IN_PROGRESS.set(in_progress)
 
             id_instance = id(instance)
+            if id_instance in in_progress:
+                # The construction of the instance is already in progress (*e.g.*, this is the constructor of
+                # a base class called from the constructor of a child class). The invariants must not be checked
+                # before the outermost constructor finishes, and the marker belongs to that constructor.
+                return func(*args, **kwargs)
+
             in_progress.add(id_instance)
 
             # ExitStack is not used here due to performance.
